@@ -9,7 +9,7 @@ L (logger, subscribed to ALL), K (subscribed to the type and issuing control fra
 interleave). All injection schedules (which publisher's next frame(s) are visible before which
 round), all service orders of rounds with several ready sockets, and deviations from the default
 environment (clock ticks that fire TIMING / TRAFFIC / ACTIVE_CLIENTS+CLIENT_INFO, a control frame
-by K, one receiver not writable -> FAILED_MESSAGE traffic) at every position, bounded in number.
+by K, one receiver not writable -> FAILED_MESSAGE traffic, the logger not writable -> the manager's wait-then-write path) at every position, bounded in number.
 """
 from __future__ import annotations
 
@@ -63,7 +63,7 @@ def deviations(sched: List[Dict[str, Any]], bound: int, tier: str) -> List[List[
             singles.append(("tick", i, dt))
         singles.append(("ctl", i, None))
     for i in range(len(sched)):
-        for slot in ("R1", "R2", "K"):
+        for slot in ("R1", "R2", "K", "L"):  # L: the logger is waited for and written on the manager's blocking path
             singles.append(("nw", i, slot))
     res = [sched]
     for k in range(1, bound + 1):
